@@ -128,7 +128,13 @@ def run_traffic(sc):
     state = {'pending': [], 'notifs_sent': 0, 'handled': 0, 'sent_bytes': 0, 'closed_at': None}
     lock = threading.Lock()
 
+    emit_lock = threading.Lock()
+
     def emit(srv, texts):
+        with emit_lock:         # the flusher thread and the request handler must not interleave their segments
+            _emit(srv, texts)
+
+    def _emit(srv, texts):
         data = b''.join(srv.frame(t) for t in texts)
         segs = cut(rng, data, seg)
         if fault and fault['kind'] == 'close-at-offset':
